@@ -30,12 +30,17 @@ BODIES = [
     ("dict-value", ["y = {{1: {N}}}"]), ("return", ["return {N}"]), ("if-test", ["if {N}:", "    pass"]),
     ("for-iter", ["for i in {N}:", "    pass"]), ("with-ctx", ["with {N} as c:", "    pass"]), ("while-test", ["while {N}:", "    break"]),
     ("assert-msg", ["assert True, {N}"]), ("nested-call", ["print(str({N}.x))"]),
+    # arguments by keyword, starred arguments, operands of boolean operators and conditional expressions, set
+    # elements, slice bounds, yielded values (visited since the repair of the expression forms)
+    ("kwarg", ["print(k={N})"]), ("conditional", ["y = {N} if True else 1"]), ("conditional-test", ["y = 1 if {N} else 2"]),
+    ("boolop", ["assert True and {N}"]), ("starred", ["print(*{N})"]), ("set-elt", ["y = {{{N}, 1}}"]),
+    ("slice-bound", ["y = d[{N}:]"]), ("yield-value", ["yield {N}"]), ("kwargs-spread", ["print(**{N})"]),
     # forms outside the statement's list of "plain uses" (probed, reported as findings when missed)
-    ("kwarg", ["print(k={N})"]), ("comprehension", ["y = [x for x in {N}]"]), ("lambda", ["y = lambda: {N}"]),
-    ("fstring", ['y = f"{{{N}}}"']), ("conditional", ["y = {N} if True else 1"]), ("boolop", ["assert True and {N}"]),
-    ("try-body", ["try:", "    {N}()", "except Exception:", "    pass"]), ("starred", ["print(*{N})"]),
+    ("comprehension", ["y = [x for x in {N}]"]), ("lambda", ["y = lambda: {N}"]),
+    ("fstring", ['y = f"{{{N}}}"']),
+    ("try-body", ["try:", "    {N}()", "except Exception:", "    pass"]),
 ]
-PLAIN = {b[0] for b in BODIES[:18]}
+PLAIN = {b[0] for b in BODIES[:27]}
 # local binding situations for the name
 BINDINGS = ["none", "none", "none", "param", "assigned-before", "assigned-after", "rebound-later", "for-target-before",
             "with-target-before", "module-level", "imported", "annassign-before", "augassign-before",
@@ -149,10 +154,8 @@ class Uses(ast.NodeVisitor):
         if isinstance(e, ast.Name):
             if isinstance(e.ctx, ast.Load): self.plain.append((e.id, e.lineno, e.col_offset, e.end_col_offset))
         elif isinstance(e, ast.Call):
-            self.expr(e.func); [self.expr(a) for a in e.args if not isinstance(a, ast.Starred)]
-            for a in e.args:
-                if isinstance(a, ast.Starred): self.oexpr(a)
-            for k in e.keywords: self.oexpr(k.value)
+            self.expr(e.func); [self.expr(a) for a in e.args]
+            for k in e.keywords: self.expr(k.value)
         elif isinstance(e, ast.Attribute): self.expr(e.value)
         elif isinstance(e, ast.BinOp): self.expr(e.left); self.expr(e.right)
         elif isinstance(e, ast.UnaryOp): self.expr(e.operand)
@@ -162,7 +165,17 @@ class Uses(ast.NodeVisitor):
         elif isinstance(e, ast.Dict):
             [self.expr(k) for k in e.keys if k is not None]; [self.expr(x) for x in e.values]
         elif isinstance(e, ast.Await): self.expr(e.value)
-        else: self.oexpr(e)
+        # operands of boolean operators and conditional expressions, set elements, starred items, slice bounds,
+        # yielded values: none of these forms binds a name
+        elif isinstance(e, ast.BoolOp): [self.expr(x) for x in e.values]
+        elif isinstance(e, ast.IfExp): self.expr(e.test); self.expr(e.body); self.expr(e.orelse)
+        elif isinstance(e, ast.Set): [self.expr(x) for x in e.elts]
+        elif isinstance(e, ast.Starred): self.expr(e.value)
+        elif isinstance(e, ast.Slice): [self.expr(x) for x in (e.lower, e.upper, e.step) if x is not None]
+        elif isinstance(e, ast.Yield):
+            if e.value is not None: self.expr(e.value)
+        elif isinstance(e, ast.YieldFrom): self.expr(e.value)
+        else: self.oexpr(e)      # lambdas, comprehensions, assignment expressions (they bind names), f-strings
     def oexpr(self, e):
         for n in ast.walk(e):
             if isinstance(n, ast.Name) and isinstance(n.ctx, ast.Load):
